@@ -246,6 +246,9 @@ nodesLoop:
 			}
 			if node.Condition != nil {
 				ti := tc.checkExpr(node.Condition)
+				if ti.Nil() {
+					panic(tc.errorf(node.Condition, "use of untyped nil"))
+				}
 				if ti.Type.Kind() != reflect.Bool {
 					panic(tc.errorf(node.Condition, "non-bool %s (type %v) used as for condition", node.Condition, ti.ShortString()))
 				}
@@ -824,6 +827,9 @@ nodesLoop:
 
 		case *ast.Send:
 			tic := tc.checkExpr(node.Channel)
+			if tic.Nil() {
+				panic(tc.errorf(node, "use of untyped nil"))
+			}
 			if tic.Type.Kind() != reflect.Chan {
 				panic(tc.errorf(node, "invalid operation: %s (send to non-chan type %s)", node, tic.ShortString()))
 			}
